@@ -408,6 +408,7 @@ func (s *Storer) GetAofWritter(r io.Reader, offset int64) (*AofWriter, error) {
 
 	aofSeg := &dataSetAof{
 		left: offset,
+		size: -1,
 	}
 	s.dataSetMux.Lock()
 	s.dataSet.AppendAof(aofSeg)
